@@ -240,7 +240,7 @@ _cache = {}
 
 
 def cached_run(case):
-    k = json.dumps(case, sort_keys=True, default=str)
+    k = json.dumps(case, sort_keys=False, default=str)  # dict key order is part of a case
     r = _cache.get(k)
     if r is None:
         if len(_cache) > 200000:
